@@ -120,8 +120,18 @@ def dsge_histories(h: Harness, rng):
     demand, in place), parents with different key sets are crossed, the children are mapped and then mutated
     repeatedly.  Every crossover and every mutation of the history is judged on snapshots taken around it."""
     from geneticengine.random.sources import NativeRandomSource
-    for _ in range(h.n(25, 300)):
-        spec = gram.productive_spec(rng, max_classes=rng.choice([4, 5, 6]), opts={"float": rng.random() < 0.5, "str": False})
+    C = gram.ClassSpec
+    # a fixed grammar with many gene-bearing symbols (two abstract types, bool / int / refined fields, a union, a list):
+    # parents regularly differ in the set of symbols they have genes for
+    many_keys = gram.Spec([C("E", True, None), C("Cond", True, None), C("Lit", False, 0, [("v", "int")]), C("Flag", False, 0, [("b", "bool")]),
+                           C("If", False, 0, [("c", ("cls", 1)), ("t", ("cls", 0)), ("e", ("cls", 0))]),
+                           C("Lt", False, 1, [("l", ("cls", 0)), ("r", ("ann", "int", ("intRange", 0, 9)))]),
+                           C("Not", False, 1, [("c", ("cls", 1))]), C("T", False, 1, []),
+                           C("Many", False, 0, [("xs", ("ann", ("list", ("cls", 0)), ("listSize", 1, 2))), ("u", ("union", ("cls", 1), "bool"))])],
+                          0, [2, 3, 4, 5, 6, 7, 8, 0, 1])
+    for it in range(h.n(12, 40) + h.n(40, 300)):
+        fixed = it < h.n(12, 40)
+        spec = many_keys if fixed else gram.productive_spec(rng, max_classes=rng.choice([4, 5, 6]), opts={"float": rng.random() < 0.5, "str": False})
         b = gram.build(spec)
         try:
             g = b.extract()
@@ -139,8 +149,8 @@ def dsge_histories(h: Harness, rng):
                 pool.append(geno)
         if len(pool) < 2:
             continue
-        h.count("dsge-histories")
-        for step in range(h.n(6, 12)):
+        h.count("dsge-histories" + (":fixed-grammar" if fixed else ""))
+        for step in range(h.n(10, 16)):
             p1, p2 = rng.sample(pool, 2)
             s1, s2 = linear.dsge_sx(p1.dna, b), linear.dsge_sx(p2.dna, b)
             st, cs = safe(lambda: rep.crossover(shared, p1, p2))
